@@ -244,7 +244,13 @@ def build_rows(tier: str):
         named = named_regs(src)
         nR = sum(1 for r in named if r < 16)
         if 16 - nR < max_lits(src):
-            continue     # precondition: assembly may legitimately refuse
+            # precondition: assembly may legitimately refuse.  It is still attempted (result ignored), so that the
+            # next program is assembled right after an assembly that failed part-way
+            try:
+                assemble_all(src, random.Random(0), tier)
+            except Exception:
+                pass
+            continue
         for path, tgt, err in assemble_all(src, rng, tier):
             i = next(nid)
             rows.append({"id": i, "src": src, "tgt": tgt or [], "named": named, "err": err})
